@@ -28,6 +28,10 @@ CLAIMED["C05"] = dict(cat="fault_enumeration",
    text="Repositories are built by generated histories (several index files, duplicate blobs, marked packs, tiny tree packs); then for a sample (quick) or all (thorough) stored files except config and keys, each of {remove, truncate, bit flip at structural and seeded positions, extend, swap with sibling, drop/duplicate one index entry} is applied to a frozen copy, and check(read_data) plus read-back of every snapshot run on fresh handles. Violation iff check reports no error while some snapshot does not read back equal to its model; the undamaged state is the control (must be check-clean and restorable).",
    ref="5 C05", note="Key files are not damaged (master-key credentials). A removed snapshot file is one snapshot less, not a damage check could notice. Panics of detached library threads while the call itself returns are counted, not flagged.",
    tech="deterministic simulation: stored-byte fault enumeration on frozen store states, check verdict vs reference-model read-back")
+CLAIMED["C04"] = dict(cat="fault_enumeration",
+   text="Four seeded batches. scan: sources built from random markers go through backup/prune/copy histories and every stored byte outside keys/ is scanned for marker windows (with a positive control through the simulator's own decryption), every file must authenticate, key files must not contain master-key bytes. nonce: with the nonce hook disarmed and kernel randomness, all message nonces over a history that re-encrypts identical plaintexts are pairwise distinct. tamper: for sampled/all stored files x {remove, truncate, bit flip, extend, swap with sibling} every read path (open, list, index load, full read-back) must fail or return exactly the untampered result. cred: add_key/delete_key/open sequences against a model set of valid credentials.",
+   ref="5 C04", note="Index-entry edits re-encoded with the right key are forging with the key, not tampering, and are excluded here (C05 uses them). Detached-thread panics while the call itself returns Err are counted, not flagged. Findings about unverified file/blob ids are listed in known_findings.json.",
+   tech="deterministic simulation: stored-byte tamper enumeration + independent AEAD audit + credential histories against a model")
 NOT_YET = {}
 NA = {
  "C09": "pure function of its arguments (snapshot list, keep options, explicit 'now'): no schedule, clock read, I/O, fault or history for a simulator to own; see DESIGN.md section 6",
